@@ -3784,7 +3784,7 @@ class RockRidgeContinuationBlock:
         return offset
 
     def remove_entry(self, offset, length):
-        # type: (int, int) -> None
+        # type: (int, int) -> bool
         """
         Given an offset and length, find and remove the entry in this block
         that corresponds.
@@ -3793,7 +3793,7 @@ class RockRidgeContinuationBlock:
          offset - The offset of the entry to look for.
          length - The length of the entry to look for.
         Returns:
-         Nothing.
+         True if no entries are left in this block, False otherwise.
         """
         for index, entry in enumerate(self._entries):
             if entry.offset == offset and entry.length == length:
@@ -3801,3 +3801,5 @@ class RockRidgeContinuationBlock:
                 break
         else:
             raise pycdlibexception.PyCdlibInternalError('Could not find an entry for the RR CE entry in the CE block!')
+
+        return not self._entries
